@@ -23,13 +23,14 @@ func TestProps(t *testing.T)  { pb.RunProps(t) }
 func TestReplay(t *testing.T) { pb.RunReplay(t) }
 
 type codec struct {
-	name      string
-	format    func([]byte) []byte
-	formatS   func(string) []byte
-	formatStr func([]byte) string
-	parse     func(dst, src []byte) int
-	parseStr  func(string) string
-	parseStrB func([]byte) string
+	name       string
+	format     func([]byte) []byte
+	formatS    func(string) []byte
+	formatStr  func([]byte) string
+	formatStrS func(string) string
+	parse      func(dst, src []byte) int
+	parseStr   func(string) string
+	parseStrB  func([]byte) string
 	// the same entry points instantiated with defined types (the constraints are ~string | ~[]byte)
 	parseStrN  func(nstr) string
 	parseStrNB func(nbytes) string
@@ -44,19 +45,19 @@ type nstr string
 type nbytes []byte
 
 var codecs = []codec{
-	{name: "octal", format: strz.OctalFormat[[]byte], formatS: strz.OctalFormat[string], formatStr: strz.OctalFormatToString[[]byte], parse: strz.OctalParse, parseStr: strz.OctalParseToString[string], parseStrB: strz.OctalParseToString[[]byte], parseStrN: strz.OctalParseToString[nstr], parseStrNB: strz.OctalParseToString[nbytes], formatN: strz.OctalFormat[nstr], formatStrN: strz.OctalFormatToString[nbytes],
+	{name: "octal", format: strz.OctalFormat[[]byte], formatS: strz.OctalFormat[string], formatStr: strz.OctalFormatToString[[]byte], formatStrS: strz.OctalFormatToString[string], parse: strz.OctalParse, parseStr: strz.OctalParseToString[string], parseStrB: strz.OctalParseToString[[]byte], parseStrN: strz.OctalParseToString[nstr], parseStrNB: strz.OctalParseToString[nbytes], formatN: strz.OctalFormat[nstr], formatStrN: strz.OctalFormatToString[nbytes],
 		shape:  regexp.MustCompile(`^(\\[0-7]{3})*$`),
 		tokens: []string{`\`, `\\`, `\1`, `\10`, `\101`, `\377`, `\400`, `\777`, `\000`, `\18`, `\1a1`, `\8`, `1`, `01`, `7`, `8`, `a`, `x`, ` `, "\xff", `\12\`, `\141`, `\0`, `\00`},
 	},
-	{name: "hex", format: strz.HexFormat[[]byte], formatS: strz.HexFormat[string], formatStr: strz.HexFormatToString[[]byte], parse: strz.HexParse, parseStr: strz.HexParseToString[string], parseStrB: strz.HexParseToString[[]byte], parseStrN: strz.HexParseToString[nstr], parseStrNB: strz.HexParseToString[nbytes], formatN: strz.HexFormat[nstr], formatStrN: strz.HexFormatToString[nbytes],
+	{name: "hex", format: strz.HexFormat[[]byte], formatS: strz.HexFormat[string], formatStr: strz.HexFormatToString[[]byte], formatStrS: strz.HexFormatToString[string], parse: strz.HexParse, parseStr: strz.HexParseToString[string], parseStrB: strz.HexParseToString[[]byte], parseStrN: strz.HexParseToString[nstr], parseStrNB: strz.HexParseToString[nbytes], formatN: strz.HexFormat[nstr], formatStrN: strz.HexFormatToString[nbytes],
 		shape:  regexp.MustCompile(`^(\\x[0-9A-F]{2})*$`),
 		tokens: []string{`\`, `\\`, `\x`, `\x4`, `\x41`, `\xff`, `\xFF`, `\x00`, `\xG1`, `\x4G`, `\X41`, `x`, `x41`, `4`, `41`, `f`, `g`, ` `, "\xff", `\x\`, `\x4\`, `\x7a`, `\x_1`, `\x+1`},
 	},
-	{name: "unicode", unicode: true, format: strz.UnicodeFormat[[]byte], formatS: strz.UnicodeFormat[string], formatStr: strz.UnicodeFormatToString[[]byte], parse: strz.UnicodeParse, parseStr: strz.UnicodeParseToString[string], parseStrB: strz.UnicodeParseToString[[]byte], parseStrN: strz.UnicodeParseToString[nstr], parseStrNB: strz.UnicodeParseToString[nbytes], formatN: strz.UnicodeFormat[nstr], formatStrN: strz.UnicodeFormatToString[nbytes],
+	{name: "unicode", unicode: true, format: strz.UnicodeFormat[[]byte], formatS: strz.UnicodeFormat[string], formatStr: strz.UnicodeFormatToString[[]byte], formatStrS: strz.UnicodeFormatToString[string], parse: strz.UnicodeParse, parseStr: strz.UnicodeParseToString[string], parseStrB: strz.UnicodeParseToString[[]byte], parseStrN: strz.UnicodeParseToString[nstr], parseStrNB: strz.UnicodeParseToString[nbytes], formatN: strz.UnicodeFormat[nstr], formatStrN: strz.UnicodeFormatToString[nbytes],
 		shape:  regexp.MustCompile(`^(\\U[0-9A-F]{8})*$`),
 		tokens: []string{`\`, `\\`, `\U`, `\U0011`, `\U0000004`, `\U00000041`, `\U0001F600`, `\U0010FFFF`, `\U00110000`, `\UFFFFFFFF`, `\U0000D800`, `\U0000FFFD`, `\U000000e9`, `\U0000G041`, `\U0000004G`, `\u00000041`, `U`, `0`, `00000041`, `F`, "\xff", `\U0000\`, `\U1F600`, `日`},
 	},
-	{name: "utf16", unicode: true, format: strz.Utf16Format[[]byte], formatS: strz.Utf16Format[string], formatStr: strz.Utf16FormatToString[[]byte], parse: strz.Utf16Parse, parseStr: strz.Utf16ParseToString[string], parseStrB: strz.Utf16ParseToString[[]byte], parseStrN: strz.Utf16ParseToString[nstr], parseStrNB: strz.Utf16ParseToString[nbytes], formatN: strz.Utf16Format[nstr], formatStrN: strz.Utf16FormatToString[nbytes],
+	{name: "utf16", unicode: true, format: strz.Utf16Format[[]byte], formatS: strz.Utf16Format[string], formatStr: strz.Utf16FormatToString[[]byte], formatStrS: strz.Utf16FormatToString[string], parse: strz.Utf16Parse, parseStr: strz.Utf16ParseToString[string], parseStrB: strz.Utf16ParseToString[[]byte], parseStrN: strz.Utf16ParseToString[nstr], parseStrNB: strz.Utf16ParseToString[nbytes], formatN: strz.Utf16Format[nstr], formatStrN: strz.Utf16FormatToString[nbytes],
 		shape:  regexp.MustCompile(`^(\\u[0-9A-F]{4})*$`),
 		tokens: []string{`\`, `\\`, `\u`, `\u00`, `\u004`, `\` + `u0041`, `\uD83D`, `\uDE00`, `\uD800`, `\uDBFF`, `\uDC00`, `\uDFFF`, `\` + `uFFFD`, `\` + `uFFFF`, `\ud83d`, `\ude00`, `\uG041`, `\u004G`, `\U0041`, `u`, `0041`, `D`, "\xff", `\uD8\`, `\uD83D\`, `\` + `u00E9`, `\` + `u65E5`, `e`},
 	},
@@ -103,6 +104,24 @@ func runRT(c rtCase, r *pb.Rec) error {
 	}
 	if e3 != string(enc) {
 		return fmt.Errorf("%s FormatToString differs: %q vs %q", cd.name, e3, enc)
+	}
+	if e9 := cd.formatStrS(g.Window(string(c.S), len(c.S))); e9 != string(enc) {
+		return fmt.Errorf("%s FormatToString differs for a string argument (a window into a larger string): %q vs %q", cd.name, e9, enc)
+	}
+	{
+		// the caller's buffer is a window into a larger array and is reused after the call: neighbours untouched,
+		// results unaffected by what the caller does with its own memory afterwards
+		win, intact := g.WindowBytes(c.S, len(c.S)+1)
+		e10, e11 := cd.formatStr(win), cd.format(win)
+		if err := intact(); err != nil {
+			return fmt.Errorf("%s Format(%q): %v", cd.name, c.S, err)
+		}
+		for i := range win {
+			win[i] = '\\' + byte(i)
+		}
+		if e10 != string(enc) || string(e11) != string(enc) {
+			return fmt.Errorf("%s Format of a []byte argument: results %q / %q (want %q) after the caller reused its buffer", cd.name, e10, e11, enc)
+		}
 	}
 	// the same bytes in a slice with spare capacity (also: length 0 with capacity > 0, the shape of buf[:0])
 	roomy := append(make([]byte, 0, len(c.S)+5), c.S...)
@@ -154,6 +173,29 @@ func runRT(c rtCase, r *pb.Rec) error {
 	}
 	if got := cd.parseStr(string(enc)); got != string(want) {
 		return fmt.Errorf("%s ParseToString(Format(%q)) = %q want %q", cd.name, c.S, got, want)
+	}
+	if len(c.S) > 0 && (len(c.S)*7+c.Codec)%37 == 0 {
+		// texts of one length (>= 64 bytes) and different content, each allocated, formatted, parsed back and dropped,
+		// with a garbage collection before the next one is allocated at (usually) the same address
+		unit := []rune(string(want))
+		if len(unit) > 0 {
+			r.Class("same-length texts in recycled memory, a collection between calls")
+			if err := g.Recycle(4, func(i int) error {
+				k := (i + 1) % len(unit)
+				rot := string(append(append(make([]rune, 0, len(unit)), unit[k:]...), unit[:k]...))
+				v := strings.Repeat(rot, 64/len(rot)+1)
+				back := cd.parseStr(cd.formatStrS(v))
+				if back != v {
+					return fmt.Errorf("%s ParseToString(FormatToString(text %d of a series of same-length texts in recycled memory, %d bytes: %.40q...)) = %.40q...", cd.name, i, len(v), v, back)
+				}
+				if b2 := cd.parseStr(string(cd.formatS(v))); b2 != v {
+					return fmt.Errorf("%s ParseToString(Format(text %d of a series of same-length texts in recycled memory)) differs from the text", cd.name, i)
+				}
+				return nil
+			}); err != nil {
+				return err
+			}
+		}
 	}
 	valid := utf8.Valid(c.S)
 	r.ClassIf(!valid && cd.unicode, "invalid byte -> U+FFFD")
@@ -217,6 +259,29 @@ func checkTotal(cd codec, in []byte) error {
 	_ = cd.parseStr(string(other[:len(other)/2]))
 	if s != keep {
 		return fmt.Errorf("%s ParseToString(%q): the returned string changed from %q to %q after a later call", cd.name, in, keep, s)
+	}
+	{
+		win, intact := g.WindowBytes(in, len(in))
+		s6 := cd.parseStrB(win)
+		if err := intact(); err != nil {
+			return fmt.Errorf("%s ParseToString(%q): %v", cd.name, in, err)
+		}
+		for i := range win {
+			win[i] = 'z' - byte(i%7)
+		}
+		if s6 != s {
+			return fmt.Errorf("%s ParseToString of a []byte argument %q: result %q (want %q) after the caller reused its buffer", cd.name, in, s6, s)
+		}
+		if s7 := cd.parseStr(g.Window(string(in), len(in)+3)); s7 != s {
+			return fmt.Errorf("%s ParseToString(%q) = %q for the text as a window into a larger string, %q otherwise", cd.name, in, s7, s)
+		}
+		dwin, dintact := g.WindowBytes(make([]byte, len(in)), len(in)+2)
+		if n2 := cd.parse(dwin, in); n2 != n || string(dwin[:n2]) != string(dst[:n]) {
+			return fmt.Errorf("%s Parse into a destination that is a window into a larger array: n=%d %q, want n=%d %q", cd.name, n2, dwin[:max(0, min(n2, len(dwin)))], n, dst[:n])
+		}
+		if err := dintact(); err != nil {
+			return fmt.Errorf("%s Parse(dst, %q): destination: %v", cd.name, in, err)
+		}
 	}
 	if s2 := cd.parseStrB(in); s2 != s {
 		return fmt.Errorf("%s ParseToString differs for string and []byte input %q: %q vs %q", cd.name, in, s, s2)
